@@ -8,7 +8,7 @@ Request:  `tx  run  <shared 0|1>  <init>  <events>`
             connection c ends normally / by an exception · `X<k>:<stmt>` cursor k executes ·
             `M<c>` conn.commit() · `R<c>` conn.rollback()
   stmt   := `b` BEGIN · `c` COMMIT · `r` ROLLBACK · `s<t>` select · `i<t>.<k>.<v>` · `d<t>.<k>` · `u<t>.<k>.<v>` ·
-            `ft` missing table · `fc` missing column · `fr` run-time failure · `fm` MERGE whose clause fails to bind · `k` SELECT 1
+            `ft` missing table · `fc` missing column · `fr` run-time failure · `fm` MERGE whose clause fails to bind · `k` SELECT 1 · `m` COMMENT ON (binds, no row change) · `z<t>` TRUNCATE
 Reply:    `impl=<obs;…>  spec=<obs;…>  env=<0|1>  finding=<key|->  fstep=<index|->`
   obs    := `-` (no statement ran) · `e` empty · `S` status row · `r<k.v,…>` rows · `n<count>` · `1` ·
             `Et`/`Ec` Snowflake 2003/2043 · `N` raw nested-BEGIN error · `X` raw run-time error · `A` raw aborted · `I` unspecified
@@ -36,6 +36,8 @@ def parseStmt (s : String) : Option Stmt :=
   | 'c' => some .commit
   | 'r' => some .rollback
   | 'k' => some .const
+  | 'm' => some .touch
+  | 'z' => tl.toNat?.map fun t => .dml t .clr
   | 's' => tl.toNat?.map .sel
   | 'i' => match nats tl with | some [t, k, v] => some (.dml t (.ins k v)) | _ => none
   | 'd' => match nats tl with | some [t, k] => some (.dml t (.del k)) | _ => none
